@@ -17,6 +17,7 @@ class Stdin:
         self.script = []
         self.blocked = 0          # number of times a reader went to sleep waiting
         self.consumed = 0
+        self.waiting = False      # a reader is asleep inside input() right now
         self.closed = False
     def __call__(self, *a):
         with self.cv:
@@ -24,7 +25,11 @@ class Stdin:
                 if self.closed:
                     raise EOFError
                 self.blocked += 1
-                self.cv.wait()
+                self.waiting = True
+                try:
+                    self.cv.wait()
+                finally:
+                    self.waiting = False
             x = self.script.pop(0)
             self.consumed += 1
         if isinstance(x, BaseException) or (isinstance(x, type) and issubclass(x, BaseException)):
@@ -80,7 +85,7 @@ def wait_until(pred, timeout=5.0):
 def keypress_threads(cs):
     return [t for t in threading.enumerate() if getattr(t, '_target', None) is cs.keypress]
 
-def run_main(argv, trigger=None, stdin=None, close_stdin_at_end=True):
+def run_main(argv, trigger=None, stdin=None, close_stdin_at_end=True, keep_input=False):
     """Run the real main() once.  trigger(ev, ctx) is called in the generation thread at every POP / GUESS event and may
     call ctx.deliver(...)."""
     pcfg_guesser, cs, pg, pq = _modules()
@@ -104,7 +109,7 @@ def run_main(argv, trigger=None, stdin=None, close_stdin_at_end=True):
             if x == 'q':
                 ok = wait_until(lambda: self.pcfg is not None and self.pcfg.should_exit and not any(t.is_alive() for t in self.kthreads()))
             elif isinstance(x, str):
-                ok = wait_until(lambda: st.consumed > n0 and (st.blocked > b0 or not any(t.is_alive() for t in self.kthreads())))
+                ok = wait_until(lambda: st.consumed > n0 and (st.waiting or not any(t.is_alive() for t in self.kthreads())))
             else:
                 ok = wait_until(lambda: st.consumed > n0 and not any(t.is_alive() for t in self.kthreads()))
             res.events.append(('ACTED', repr(x), ok))
@@ -147,6 +152,9 @@ def run_main(argv, trigger=None, stdin=None, close_stdin_at_end=True):
             except SystemExit as e:
                 res.exc = e
             except BaseException as e:
+                from .evidence import CaseTimeout
+                if isinstance(e, (CaseTimeout, KeyboardInterrupt)):
+                    raise
                 res.exc = e
     finally:
         pg.PcfgGrammar.print_guess = orig_print
@@ -157,7 +165,10 @@ def run_main(argv, trigger=None, stdin=None, close_stdin_at_end=True):
             st.close()
             for t in ctx.kthreads():
                 t.join(2)
-        builtins.input = old_input
+        if not keep_input:
+            builtins.input = old_input
+        else:
+            res.restore_input = lambda: setattr(builtins, 'input', old_input)
     res.stderr, res.stdout = err.getvalue(), out.getvalue()
     return res
 
